@@ -318,3 +318,117 @@ func ErrNonNil(conds []Cond, e ssa.Value) (nonnil bool, known bool) {
 	}
 	return false, false
 }
+
+// IntPred is a branch condition normalised to a predicate over one integer expression X compared with a constant:
+// `X op k`, `k op X`, under a polarity.  Holds(n) says whether the branch is taken for X == n.
+type IntPred struct {
+	X     ssa.Value
+	K     int64
+	Holds func(n int64) bool
+}
+
+// AsIntPred recognises every spelling of a comparison with a constant (==, !=, <, <=, >, >=, either operand order,
+// either polarity), so that rules can ask what the comparison implies instead of demanding one spelling.
+func AsIntPred(cond ssa.Value, pol bool) (IntPred, bool) {
+	c := norm(Cond{V: cond, Pol: pol})
+	bo, ok := c.V.(*ssa.BinOp)
+	if !ok {
+		return IntPred{}, false
+	}
+	op := bo.Op
+	x, y := bo.X, bo.Y
+	k, isK := ConstInt(y)
+	if !isK {
+		k, isK = ConstInt(x)
+		if !isK {
+			return IntPred{}, false
+		}
+		x = y
+		switch op { // k op x  ==  x op' k
+		case token.LSS:
+			op = token.GTR
+		case token.LEQ:
+			op = token.GEQ
+		case token.GTR:
+			op = token.LSS
+		case token.GEQ:
+			op = token.LEQ
+		}
+	}
+	var f func(n int64) bool
+	switch op {
+	case token.EQL:
+		f = func(n int64) bool { return n == k }
+	case token.NEQ:
+		f = func(n int64) bool { return n != k }
+	case token.LSS:
+		f = func(n int64) bool { return n < k }
+	case token.LEQ:
+		f = func(n int64) bool { return n <= k }
+	case token.GTR:
+		f = func(n int64) bool { return n > k }
+	case token.GEQ:
+		f = func(n int64) bool { return n >= k }
+	default:
+		return IntPred{}, false
+	}
+	p := c.Pol
+	return IntPred{X: x, K: k, Holds: func(n int64) bool { return f(n) == p }}, true
+}
+
+// LenPred: the condition compares len(arg) with a constant.
+func LenPred(cond ssa.Value, pol bool) (arg ssa.Value, p IntPred, ok bool) {
+	p, ok = AsIntPred(cond, pol)
+	if !ok {
+		return nil, p, false
+	}
+	c, isCall := StripConv(p.X).(*ssa.Call)
+	if !isCall {
+		return nil, p, false
+	}
+	if bi, isB := c.Call.Value.(*ssa.Builtin); !isB || bi.Name() != "len" || len(c.Call.Args) != 1 {
+		return nil, p, false
+	}
+	return c.Call.Args[0], p, true
+}
+
+// OnlyZero: for a non-negative quantity, the predicate holds for no value other than 0 (it implies X == 0).
+func (p IntPred) OnlyZero() bool {
+	hi := p.K
+	if hi < 0 {
+		hi = 0
+	}
+	for n := int64(1); n <= hi+2; n++ {
+		if p.Holds(n) {
+			return false
+		}
+	}
+	return p.Holds(0)
+}
+
+// NonZero: the predicate excludes 0 (it implies X != 0, i.e. X >= 1 for a non-negative quantity).
+func (p IntPred) NonZero() bool { return !p.Holds(0) }
+
+// AtLeast: the predicate implies X >= m (checked on 0..m-1).
+func (p IntPred) AtLeast(m int64) bool {
+	for n := int64(0); n < m; n++ {
+		if p.Holds(n) {
+			return false
+		}
+	}
+	return true
+}
+
+// AtMost: the predicate implies X <= m for a quantity that does not exceed lim (checked on m+1..max(K,m)+2).
+func (p IntPred) AtMost(m int64) bool {
+	hi := p.K
+	if hi < m {
+		hi = m
+	}
+	for n := m + 1; n <= hi+2; n++ {
+		if p.Holds(n) {
+			return false
+		}
+	}
+	return true
+}
